@@ -162,17 +162,18 @@ func (route *Route) InspectRoute(
 		amountExactBuffer := amountExact
 		results := make([]RouteResult, len(strategy.Series.Routes))
 		for i := range strategy.Series.Routes {
-			var r *Route
-			if !reverse {
-				r = &strategy.Series.Routes[i]
-			} else {
-				r = &strategy.Series.Routes[len(strategy.Series.Routes)-1-i]
+			// In reverse (exact output) the hops are inspected last-first,
+			// but the results are kept in route order: they are executed in that order.
+			index := i
+			if reverse {
+				index = len(strategy.Series.Routes) - 1 - i
 			}
+			r := &strategy.Series.Routes[index]
 			amountResultBuffer, routeResultBuffer, err := r.InspectRoute(amountExactBuffer, inspectRoutePool, generateResult, reverse)
 			if err != nil {
 				return math.Int{}, RouteResult{}, err
 			}
-			results[i] = routeResultBuffer
+			results[index] = routeResultBuffer
 
 			amountExactBuffer = amountResultBuffer
 		}
